@@ -193,7 +193,7 @@ def skeleton_archives(rng, n):
     return out
 
 
-def build(entries, jail, rng):
+def build(entries, jail, rng, nonsolid=False):
     members = []
     for name, kind, payload in entries:
         name = name.replace("JAIL_OUT", os.path.join(jail, "outside_dir").lstrip("/"))
@@ -209,7 +209,7 @@ def build(entries, jail, rng):
         else:
             members.append({"name": name, "kind": "file", "data": payload, "attr": c06.FILE_ATTR, "mtime": 120000000000000000, "ctime": None, "atime": None})
     streams = [i for i, m in enumerate(members) if m["kind"] in ("file", "symlink")]
-    lay = {"folders": [("copy", streams)] if streams else [], "crc_place": "sub", "nums_omitted": True, "packcrc": False, "packpos": 0, "dummy": 0,
+    lay = {"folders": ([("copy", [i]) for i in streams] if nonsolid else [("copy", streams)]) if streams else [], "crc_place": "sub", "nums_omitted": True, "packcrc": False, "packpos": 0, "dummy": 0,
            "emptyfile_vector": True, "header": "raw", "password": None, "nonminimal": False}
     return refwriter.build(members, lay, rng)
 
@@ -235,8 +235,44 @@ def _snapshot(root, skip):
 
 
 def _extract(job):
-    data, jail, spelling, by, populate = job
+    data, jail, spelling, by, populate = job[:5]
+    race = job[5] if len(job) > 5 else False
     import py7zr
+    if race:
+        # Enforced worst-case interleaving of the per-folder workers (archive opened by path, one folder per member):
+        # the worker of the LAST folder runs its output-location check, then waits until every other worker has
+        # finished (so every link of the archive is on disk), then goes on to create its member.
+        import threading
+        import py7zr.py7zr as core
+        state = {"victim": None, "others_done": threading.Event(), "n": 0, "lock": threading.Lock(), "total": None}
+        orig_single = core.Worker.extract_single
+        orig_check = core.Worker._check_output_location
+
+        def single(self, fp, files, path, src_start, src_end, q, exc_q=None, skip_notarget=True):
+            me = threading.current_thread()
+            is_victim = False
+            with state["lock"]:
+                if state["total"] is None:
+                    state["total"] = self.header.main_streams.unpackinfo.numfolders if self.header.main_streams else 0
+                if files is not None and any(getattr(f, "folder", None) is self.header.main_streams.unpackinfo.folders[-1] for f in files):
+                    state["victim"] = me
+                    is_victim = True
+            try:
+                return orig_single(self, fp, files, path, src_start, src_end, q, exc_q, skip_notarget)
+            finally:
+                if not is_victim:
+                    with state["lock"]:
+                        state["n"] += 1
+                        if state["n"] >= (state["total"] or 1) - 1:
+                            state["others_done"].set()
+
+        def check(fileish, path):
+            orig_check(fileish, path)
+            if threading.current_thread() is state["victim"] and threading.current_thread() is not threading.main_thread():
+                state["others_done"].wait(3.0)
+
+        core.Worker.extract_single = single
+        core.Worker._check_output_location = staticmethod(check)
     dest = os.path.join(jail, "dest")
     os.makedirs(dest)
     os.makedirs(os.path.join(jail, "outside_dir"))
@@ -385,6 +421,22 @@ def run(ctx):
                     data = build(entries, jail, rng)
                     jobs.append((data, jail, spelling, by, False))
                     meta.append((entries, spelling, by, False))
+        # the same explicit shapes and the skeleton core with one folder per member, opened by path (per-folder worker
+        # threads), under the enforced interleaving described in _extract
+        race_sets = list(EXPLICIT) + skeleton_archives(rng, 0)[:: (1 if ctx.thorough else 6)]
+        for entries in race_sets:
+            if sum(1 for e in entries if e[1] in ("file", "symlink")) < 2:
+                continue
+            for spelling in (("absolute", "relative", "none") if ctx.thorough else ("absolute",)):
+                jail = os.path.join(tmp, "j%d" % k)
+                k += 1
+                os.makedirs(jail)
+                try:
+                    data = build(entries, jail, rng, nonsolid=True)
+                except Exception as e:  # noqa
+                    continue
+                jobs.append((data, jail, spelling, "path", False, True))
+                meta.append((entries, spelling, "path/one-folder-per-member/last-worker-delayed-after-its-check", False))
         res = sandbox.pmap(_extract, jobs, timeout=60)
         for (entries, spelling, by, populate), (st, val) in zip(meta, res):
             desc = [(n, k, (p if k == "symlink" else None)) for n, k, p in entries]
